@@ -280,6 +280,10 @@ def hdl21_naming_encoder(obj: Any) -> Any:
         # are equal parameter values, and must produce the same name. Encode the value, not its fields.
         return str(obj._value().normalize())
 
+    if isinstance(obj, (set, frozenset)):
+        # Sets iterate in hash order, which differs from process to process. Encode their elements in a reproducible order.
+        return sorted(json.dumps(v, default=hdl21_naming_encoder) for v in obj)
+
     if isinstance(obj, (Instance,)):
         # Not supported as parameters
         raise RuntimeError(f"Invalid `hdl21.paramclass` field {obj}")
